@@ -5,7 +5,7 @@ from checks import c01
 FUNCTIONS = c01.FUNCTIONS + ['depccg/parsing.pyx: retrieve_tree, scaffold, run (translated, native): labels/symbols/head flags of every node of the delivered Tree',
                             'depccg/grammar/__init__.py: guess_combinator_by_triplet', 'depccg/tools/reader.py: read_auto, read_xml, read_jigg_xml, read_ptb']
 BOUNDS = {
-    'quick': 'parser side: every path for G4 (several results per pair with different labels, a duplicate category, both head directions; n = 2 with 2 tags, n-best 1-3), G2/G5r (right-headed), real ja table (head right) n = 3, real en table n = 3; one witness per path through the real finalizer.  Reader side: see evidence (reader obligations)',
+    'quick': 'reader side: grammar-licensed derivations of 2-3 leaves (forks over lexicon and rule results) and the same with an underivable root category, printed as auto / ptb / xml / jigg_xml and read back with the language set; parser side: every path for G4 (several results per pair with different labels, a duplicate category, both head directions; n = 2 with 2 tags, n-best 1-3), G2/G5r (right-headed), real ja table (head right) n = 3, real en table n = 3; one witness per path through the real finalizer.  ',
     'thorough': 'adds G4 n = 3 n-best 3',
 }
 OUTSIDE = c01.OUTSIDE
@@ -29,6 +29,124 @@ def obligations(tier):
     return obs
 
 
+# ------------------------------------------------------------------------------------------- reader side (Engine P)
+
+def _expect(lang, node):
+    """labels (op_string, op_symbol, head_is_left) of the grammar results that derive node.cat from its children"""
+    from depccg.grammar import en, ja
+    g = en if lang == 'en' else ja
+    rs = g.apply_binary_rules(node.children[0].cat, node.children[1].cat)
+    return [(r.op_string, r.op_symbol, r.head_is_left) for r in rs if r.cat == node.cat]
+
+
+def _check_read(lang, t2, has_head_field, where):
+    from lib import trees
+    for nd in trees.walk(t2):
+        if nd.is_leaf or len(nd.children) != 2:
+            continue
+        exp = _expect(lang, nd)
+        if exp:
+            ok = any(nd.op_string == a and nd.op_symbol == b and (has_head_field or bool(nd.head_is_left) == bool(h)) for a, b, h in exp)
+            if not ok:
+                if nd.op_string == 'unk':
+                    return ('reader.%s.derivable-node-labelled-unknown' % where, str(nd.cat))
+                return ('reader.%s.label-or-head-not-the-grammar-rule' % where, nd.op_string, exp)
+        elif nd.op_string != 'unk':
+            return ('reader.%s.underivable-node-not-unknown' % where, nd.op_string)
+    return True
+
+
+def h_reader(d, lang, n, nlex, fmt, corrupt):
+    """print a grammar-licensed derivation (optionally with one node category replaced by one the grammar does not derive) and read it back"""
+    from lib import env, trees
+    from checks import c19
+    from depccg.cat import Category
+    from depccg.tree import ScoredTree, Tree
+    from depccg.tools import reader
+    from depccg.lang import set_global_language_to
+    set_global_language_to(lang)
+    env.install_open(reader)
+    t = c19.gen_derivation(d, lang, n, nlex)
+    if t is None:
+        return True
+    if corrupt:
+        # replace the root category by an atom the grammar does not derive from these children
+        if t.is_leaf or len(t.children) != 2:
+            return True
+        odd = Category.parse('QQ' if lang == 'en' else 'QQ[case=nc,mod=nm,fin=f]')
+        t = Tree.make_binary(odd, t.children[0], t.children[1], 'unk', '<unk>', t.head_is_left)
+    try:
+        if fmt == 'auto':
+            from depccg.printer.auto import auto_of
+            f = env.write_file('c12.auto', ['ID=1', auto_of(t)])
+            t2 = list(reader.read_auto(f))[0].tree
+        elif fmt == 'ptb':
+            from depccg.printer.ptb import ptb_of
+            f = env.write_file('c12.ptb', [ptb_of(t)])
+            t2 = list(reader.read_ptb(f))[0].tree
+        elif fmt == 'xml':
+            from depccg.printer.xml import xml_of
+            f = env.xml_file('c12.xml', xml_of([[ScoredTree(t, -1.0)]]))
+            t2 = list(reader.read_xml(f))[0].tree
+        else:
+            from depccg.printer.jigg_xml import to_jigg_xml
+            f = env.xml_file('c12.jigg.xml', to_jigg_xml([[ScoredTree(t, -1.0)]], use_symbol=(lang == 'ja')))
+            t2 = list(reader.read_jigg_xml(f))[0].tree
+    except Exception:
+        return True       # whether the text reads back at all is C08/C15/C20's subject (e.g. PTB bracket tokens)
+    if trees.same_structure(t, t2, heads=False) is not None:
+        return True       # shape/category read-back is C08/C15/C20's subject
+    return _check_read(lang, t2, fmt == 'auto', fmt)
+
+
+def p_obligations(tier):
+    from lib.framework import Obligation
+    q = tier == 'quick'
+    for lang, fmts in (('en', ('auto', 'ptb', 'xml', 'jigg_xml')), ('ja', ('auto', 'ptb', 'jigg_xml'))):
+        for fmt in fmts:
+            if lang == 'en' and fmt == 'jigg_xml':
+                continue          # Jigg XML spells English features as [f=true]: categories do not read back (outside the statement)
+            for n in (2, 3):
+                nlex = (6 if n == 2 else 4) if q else 8
+                for corrupt in (False, True):
+                    if corrupt and n == 3:
+                        continue
+                    yield Obligation('C12.reader[%s,%s,n=%d,lexicon=%d%s]' % (lang, fmt, n, nlex, ',underivable root' if corrupt else ''), 'h_reader',
+                                     dict(lang=lang, n=n, nlex=nlex, fmt=fmt, corrupt=corrupt), cost=n * n)
+
+
+class _PMod:
+    """the reader-side obligations as a framework check module"""
+    __name__ = __name__
+    FUNCTIONS, BOUNDS, OUTSIDE, ASSUMPTIONS = FUNCTIONS, BOUNDS, OUTSIDE, ASSUMPTIONS
+    obligations = staticmethod(p_obligations)
+
+
 def main(tier):
-    return S.run_search_check('C12', tier, obligations(tier), ('C12.',), FUNCTIONS, BOUNDS[tier], OUTSIDE, ASSUMPTIONS,
-                              records_for_validation=True, record_every=1)
+    import json
+    import os
+    import sys
+    from lib import framework
+    rc1 = S.run_search_check('C12', tier, obligations(tier), ('C12.',), FUNCTIONS, BOUNDS[tier], OUTSIDE, ASSUMPTIONS,
+                             records_for_validation=True, record_every=1)
+    parser_side = json.load(open(os.path.join(framework.VERIF, 'evidence', 'C12.json')))
+    mod = sys.modules[__name__]
+    mod.obligations_search = obligations
+    saved = mod.obligations
+    mod.obligations = p_obligations
+    try:
+        rc2 = framework.run_check('C12', tier, mod, extra_cov=dict(parser_side=parser_side['coverage'], parser_side_wall_s=parser_side['wall_s'],
+                                                                   parser_side_violations=parser_side.get('violations', 0)))
+    finally:
+        mod.obligations = saved
+    # merged evidence: states/transitions of both halves
+    p = os.path.join(framework.VERIF, 'evidence', 'C12.json')
+    ev = json.load(open(p))
+    ps = parser_side['coverage']
+    for k in ('states', 'transitions', 'traces_validated_against_impl', 'evaluations', 'distinct_nontrivial', 'obligations', 'discharged', 'solver_queries'):
+        ev['coverage'][k] = ev['coverage'].get(k, 0) + ps.get(k, 0)
+    ev['coverage']['exhaustive'] = bool(ev['coverage'].get('exhaustive')) and bool(ps.get('exhaustive'))
+    ev['violations'] = ev.get('violations', 0) + parser_side.get('violations', 0)
+    ev['wall_s'] = round(ev['wall_s'] + parser_side['wall_s'], 2)
+    json.dump(ev, open(p, 'w'), indent=1)
+    return max(rc1, rc2) if 1 not in (rc1, rc2) else 1
